@@ -7,7 +7,7 @@
 using namespace bpp;
 using namespace std;
 
-void TwoPointsNumericalDerivative::updateDerivatives(const ParameterList& parameters)
+void TwoPointsNumericalDerivative::updateDerivatives(const ParameterList& params)
 {
   if (computeD1_ && variables_.size() > 0)
   {
@@ -15,8 +15,11 @@ void TwoPointsNumericalDerivative::updateDerivatives(const ParameterList& parame
       function1_->enableFirstOrderDerivatives(false);
     if (function2_)
       function2_->enableSecondOrderDerivatives(false);
-    function_->setParameters(parameters);
+    function_->setParameters(params);
     f1_ = function_->getValue();
+    // The derivatives of every selected variable depend on the whole point, not only on the
+    // parameters this update names: work from the function's full parameter list.
+    const ParameterList parameters(function_->getParameters());
     if ((abs(f1_) >= NumConstants::VERY_BIG()) || std::isnan(f1_))
     {
       for (size_t i = 0; i < variables_.size(); ++i)
@@ -99,7 +102,7 @@ void TwoPointsNumericalDerivative::updateDerivatives(const ParameterList& parame
     if (function2_)
       function2_->enableSecondOrderDerivatives(computeD2_);
     // Just in case derivatives are not computed:
-    function_->setParameters(parameters);
+    function_->setParameters(params);
     f1_ = function_->getValue();
   }
 }
